@@ -241,6 +241,52 @@ class Check(PropertyCheck):
                            "observed": f"{len(bad)} field(s) of the v14+ tables still have a one-byte legacy status type: {bad[:6]}",
                            "required": "the schemas of a version describe that version's wire format: from EZSP v14 on every status field is the 32-bit unified status"}, found_input=True, signature="tables:legacy-status-in-v14")
 
+        self._handler_independence(rep, rng)
+
+    def _handler_independence(self, rep, rng):
+        """the receive-path round trip holds for the handler in use whatever EARLIER handler objects (replaced at a reset or a
+        version switch) were left with: commands abandoned there under the numbers 0..3 do not touch frames that reach the new
+        handler under those numbers"""
+        import bellows.ezsp as E
+        problems, n = [], 0
+        versions = sorted(E.EZSP._BY_VERSION)
+        for v in versions:
+            ov = rng.choice(versions)
+            old = self.stack.make_ezsp(ov)._protocol
+            tasks = [self.loop.create_task(old.command("getNodeId" if i % 2 else "nop")) for i in range(4)]
+            for _ in range(6):
+                self.loop.run_until_complete(asyncio.sleep(0))
+            for tk in tasks:
+                tk.cancel()
+            self.loop.run_until_complete(asyncio.sleep(0))
+            ez = self.stack.make_ezsp(v)
+            proto = ez._protocol
+            got = []
+            ez.add_callback(lambda name, args: got.append((name, args)))
+            names = [nm for nm in ("stackStatusHandler", "getEui64", "getNodeId", "networkState", "incomingMessageHandler")
+                     if nm in proto.COMMANDS]
+            for sq, name in enumerate(names[:4]):
+                cid, tx, rx = proto.COMMANDS[name]
+                items = et.items_of_schema(rx)
+                rawv = et.gen_flat(items, rng, "rand")
+                proto._seq = sq
+                hdr = bytes(proto._ezsp_frame_tx(name))
+                del got[:]
+                n += 1
+                try:
+                    ez.frame_received(hdr + et.flat_encode(items, rawv))
+                except BaseException as e:  # noqa
+                    problems.append(f"v{v} (earlier handler v{ov}): a {name} frame under number {sq} raised {e!r} in the receive path")
+                    continue
+                if len(got) != 1 or got[0][0] != name:
+                    problems.append(f"v{v} (earlier handler v{ov}): a {name} frame under number {sq} reached a handler with nothing "
+                                    f"outstanding and yielded {[g[0] for g in got]} instead of its values")
+        rep.cov["handler_independence_frames"] = n
+        if problems:
+            rep.violation({"input": "an earlier handler object abandons four commands (numbers 0..3); a new handler receives proper frames under those numbers",
+                           "observed": problems[:6], "required": "feeding the encoding of a value tuple back through the receive path of the handler in use yields those values"},
+                          found_input=True, signature="codec:handler-independence")
+
     def nontrivial(self, case, obs):
         return bool(case.get("_txflat") or case.get("_rxflat"))
 
